@@ -63,7 +63,13 @@ func (propC04) Cases(tier string) int {
 }
 
 func (propC04) Run(ctx *Ctx, index int) {
-	prog := genC04(ctx.Prog, ctx.Tier == "thorough" && index%4 == 3)
+	var prog *qProgram
+	switch {
+	case index%16 == 7:
+		prog = genStress(ctx.Prog, false) // many goroutines, large parameters
+	default:
+		prog = genC04(ctx.Prog, ctx.Tier == "thorough" && index%4 == 3)
+	}
 	qr := runQueueProgram(ctx, prog)
 	ctx.Res.Desc = prog
 	ctx.Res.ProgKey = jsonKey(prog)
@@ -110,7 +116,12 @@ func (propC05) Run(ctx *Ctx, index int) {
 		runCtorCase(ctx, index%len(ctorForms), index/len(ctorForms))
 		return
 	}
-	prog := genC05(ctx.Prog)
+	var prog *qProgram
+	if index%16 == 7 {
+		prog = genStress(ctx.Prog, index%32 == 7)
+	} else {
+		prog = genC05(ctx.Prog)
+	}
 	qr := runQueueProgram(ctx, prog)
 	ctx.Res.Desc = prog
 	ctx.Res.ProgKey = jsonKey(prog)
